@@ -671,6 +671,18 @@ impl<BE: Backend + CKKSImpl<BE>> CKKSDotProductOps<BE> for Module<BE> {
             rank: dst.rank(),
         };
 
+        // inputs handed to the tensor product as they are have to be stored compactly
+        if a_aligned {
+            for ai in a.iter() {
+                crate::ensure_compact("ckks_dot_product_ct", ai.effective_k(), ai.base2k().as_usize(), ai.size())?;
+            }
+        }
+        if b_aligned {
+            for bi in b.iter() {
+                crate::ensure_compact("ckks_dot_product_ct", bi.effective_k(), bi.base2k().as_usize(), bi.size())?;
+            }
+        }
+
         let (mut acc_tensor, scratch_t2) = scratch_ab.take_glwe_tensor(&tensor_layout);
 
         let a0_ref = if a_aligned { a[0].to_ref() } else { a_buf[0].to_ref() };
